@@ -4,12 +4,15 @@ import (
 	"encoding/binary"
 	"encoding/hex"
 	"fmt"
+	"runtime"
 	"strconv"
 	"strings"
+	"time"
 
 	"github.com/Breeze0806/gobinlog/replication"
 
 	"verifharness/core"
+	"verifharness/enc/ev"
 	"verifharness/hist"
 	"verifharness/run"
 	"verifharness/sim"
@@ -117,6 +120,87 @@ func checkC17(c *core.Ctx) {
 	}
 	c17Gate(c)
 	c17Stream(c)
+	c17ZeroWidthRows(c) // last: a decoder that runs away cannot be stopped, the shard ends there
+}
+
+// c17ZeroWidthRows: a rows packet that passes the validity test and whose rows
+// are zero bytes wide (no column present, or a column count of zero) followed
+// by a few more bytes. The decoder may refuse it or make what it likes of it;
+// it must come back (in the streamer a decoder that never returns means a
+// Stream call that never returns, with memory growing until the process dies).
+func c17ZeroWidthRows(c *core.Ctx) {
+	if c.Shard != 0 {
+		return
+	}
+	n := 0
+	for _, v2 := range []bool{false, true} {
+		for _, id4 := range []bool{false, true} {
+			for _, kind := range []ev.RowsKind{ev.KWrite, ev.KUpdate, ev.KDelete} {
+				for _, ncols := range []int{0, 1, 3, 9} {
+					for trail := 1; trail <= 4; trail++ {
+						cfg := &ev.Cfg{RowsV2: v2, TableID4: id4, NumTypes: 40, ServerVersion: "5.7.44-log", GTIDPostHeader: 42, ServerID: 1}
+						none := make([]bool, ncols)
+						body := cfg.RowsBody(kind, 77, 1, nil, ncols, none, none, nil)
+						for i := 0; i < trail; i++ {
+							body = append(body, byte(0xa0+i))
+						}
+						evb := cfg.EventNext(1, cfg.RowsType(kind), 0, body, 4000)
+						exact := make([]byte, len(evb))
+						copy(exact, evb)
+						cols := make([]c09Col, ncols)
+						for i := range cols {
+							cols[i] = c09Col{Type: ev.TLong}
+						}
+						if !refValid(exact) {
+							c.Inconclusive("zero-width rows event does not pass the reference gate")
+							return
+						}
+						pan, runaway, gaveUp := c17Bounded(func() {
+							_, _ = replication.NewMysql56BinlogEvent(exact).Rows(c09Format(cfg), c09TableMap(cols))
+						}, 192<<20)
+						_ = pan // a panic is turned into a decode error by the streamer
+						n++
+						c.Case(core.Hash64(exact), true)
+						if runaway || gaveUp {
+							c.Violation("c17:decoder-runs-away:zero-width-rows", fmt.Sprintf("a gate-accepted %s rows event (v2=%v, %d columns, none present, %d trailing bytes, %d bytes in all) makes Rows() allocate without end instead of returning", c09KindNames[kind], v2, ncols, trail, len(exact)),
+								map[string]interface{}{"kind": "zero-width-rows", "hex": hex.EncodeToString(exact), "v2": v2, "id4": id4, "ncols": ncols})
+							return
+						}
+					}
+				}
+			}
+		}
+	}
+	c.CellN("gate:zero-width-rows-events", int64(n))
+}
+
+// c17Bounded runs f and reports whether it came back before the heap grew by
+// limit bytes (or maxWait passed).
+func c17Bounded(f func(), limit uint64) (pan string, runaway, gaveUp bool) {
+	var ms runtime.MemStats
+	runtime.ReadMemStats(&ms)
+	base := ms.HeapAlloc
+	done := make(chan struct{})
+	go func() {
+		defer close(done)
+		pan = core.Guard(f)
+	}()
+	tick := time.NewTicker(2 * time.Millisecond)
+	defer tick.Stop()
+	for i := 0; ; i++ {
+		select {
+		case <-done:
+			return pan, false, false
+		case <-tick.C:
+			runtime.ReadMemStats(&ms)
+			if ms.HeapAlloc > base+limit {
+				return "", true, false
+			}
+			if time.Duration(i)*2*time.Millisecond > maxWait {
+				return "", false, true
+			}
+		}
+	}
 }
 
 func c17Report(c *core.Ctx, b []byte, src string) {
